@@ -2,8 +2,11 @@ package gen
 
 import (
 	"fmt"
+	"regexp"
 	"strings"
 )
+
+var loopCounterAssign = regexp.MustCompile(`\bi\d+ *(=[^=]|\+=|-=|\*=|--)`)
 
 // EvalScript is a script made of top-level statements that stream `eval` (C10) cuts
 // into consecutive fragments.  No statement returns from the top level, except that
@@ -155,7 +158,22 @@ func (g *evalGen) top() {
 		// any statement form of the program generator, at the top level
 		before := append([]string{}, sc.vars...)
 		var sb strings.Builder
-		g.stmt(&sb, sc, 0, "")
+		for try := 0; ; try++ {
+			// a statement that assigns to a loop counter may never end: draw again
+			// (declarations made by the rejected draw are dropped with it)
+			saveVars, saveFuncs := append([]string{}, sc.vars...), append([]string{}, sc.funcs...)
+			sb.Reset()
+			g.stmt(&sb, sc, 0, "")
+			if !loopCounterAssign.MatchString(sb.String()) {
+				break
+			}
+			sc.vars, sc.funcs = saveVars, saveFuncs
+			if try > 20 {
+				sb.Reset()
+				sb.WriteString("1")
+				break
+			}
+		}
 		var probes []string
 		for _, v := range sc.vars[len(before):] {
 			probes = append(probes, v)
@@ -329,10 +347,14 @@ func (g *evalGen) top() {
 		}
 	case "print":
 		g.es.Prints = true
+		// maps print in Go's map order: print scalars and type names only
+		safe := func(e string) string {
+			return "(isInt(" + e + ") || isString(" + e + ") ? " + e + " : typeName(" + e + "))"
+		}
 		if r.Bool() {
-			g.add("println("+g.exprK(sc, 1, 'I')+")", nil)
+			g.add("println("+safe(g.exprK(sc, 1, 'I'))+")", nil)
 		} else {
-			g.add(fmt.Sprintf("printf(\"%%v|%%v\\n\", %s, %s)", g.exprK(sc, 1, 'I'), g.exprK(sc, 1, 'S')), nil)
+			g.add(fmt.Sprintf("printf(\"%%v|%%v\\n\", %s, %s)", safe(g.exprK(sc, 1, 'I')), safe(g.exprK(sc, 1, 'S'))), nil)
 		}
 	}
 }
